@@ -32,11 +32,6 @@ impl VisitableMut for Generics {
         visit.visit_generics_mut(self);
     }
 }
-impl VisitableMut for syn::WhereClause {
-    fn visit_mut(&mut self, visit: &mut impl VisitMut) {
-        visit.visit_where_clause_mut(self);
-    }
-}
 /// The type as it has to be written behind `&`, `&mut` or `&'a`:
 /// a bare trait object or `impl Trait` with several bounds needs parentheses (`&(dyn A + Send)`).
 pub fn ref_target(ty: &Type) -> proc_macro2::TokenStream {
